@@ -1,14 +1,14 @@
 package sim
 
 import (
-	"sort"
-	"os"
 	"context"
 	"fmt"
 	"math/rand"
 	"net"
 	"net/http"
 	"net/netip"
+	"os"
+	"sort"
 	"strings"
 	"sync/atomic"
 	"testing"
@@ -21,6 +21,7 @@ import (
 	"github.com/DataDog/datadog-traceroute/icmp"
 	"github.com/DataDog/datadog-traceroute/packets"
 	"github.com/DataDog/datadog-traceroute/reversedns"
+	"github.com/DataDog/datadog-traceroute/tcp"
 )
 
 var current atomic.Pointer[World]
@@ -178,6 +179,13 @@ func setAllocators(k *Knobs) {
 		}
 	}
 	icmp.VerifSetEchoIDBase(ebase)
+	if k.SetTCPSeq {
+		var n atomic.Uint32
+		base := k.TCPSeqBase
+		tcp.VerifSetSeqSource(func() uint32 { return base - (n.Add(1)-1)*0x9e3779b1 })
+	} else {
+		tcp.VerifSetSeqSource(nil)
+	}
 }
 
 // Execute runs one scenario in a fresh bubble and returns what happened.
